@@ -471,7 +471,7 @@ def gen_run_case(rng, tier):
 def gen_cb_case(rng, tier):
   basis = pick_basis(rng, tier)
   run = gen_run(rng, basis, 2, zero=rng.random() > 0.15, beyond=rng.random() < 0.1)
-  bad = rng.random() < 0.06
+  bad = rng.random() < 0.06 and bool(run['runs'])
   if bad:
     run['runs'][rng.randrange(len(run['runs']))][1] = rng.choice([val(rng), [val(rng)], [val(rng)]*3])
   return {'k': 'cb', 'run': run, '_bad': bad, '_ints': rng.random() < 0.5}
